@@ -65,7 +65,9 @@ ROWS, COLS = 2, 3
 K_INC = "pipeline.charge_generation.m1.arguments.inc"
 K_A = "pipeline.photon_collection.p1.arguments.a"
 K_T = "detector.environment.temperature"
-KEYS = {"inc": K_INC, "a": K_A, "T": K_T}
+K_LST = "pipeline.charge_generation.m1.arguments.lst"
+K_EN2 = "pipeline.charge_collection.m2.enabled"
+KEYS = {"inc": K_INC, "a": K_A, "T": K_T, "lst": K_LST, "en2": K_EN2}
 PKS = ("mem", "lst", "dct", "both")
 PRIORS = ("fresh", "memory", "filled", "both")
 READOUTS = ("1", "2d", "2nd")
@@ -105,12 +107,14 @@ def make_objects(pk, prior, bake=None):
     margs = {"inc": c["inc"]}
     if pk in ("lst", "both"):
         margs["lst"] = [5.0] if pk == "lst" else [5.0, 6.0]
+        if c.get("lst") is not None:
+            margs["lst"] = [float(x) for x in c["lst"]]
     if pk in ("dct", "both"):
         margs["dct"] = {"n": 2, "log": [0.5]} if pk == "dct" else {"n": 1}
     pipe = mk.pipeline({
         "photon_collection": [("vp.cprobes.enc", "p1", {"slot": 0, "a": c["a"], "b": 2.0, "v": [3.0, 4.0]}, True)],
         "charge_generation": [("vp.cprobes.mem", "m1", margs, True)],
-        "charge_collection": [("vp.cprobes.mem", "m2", {"inc": 0.25, "lst": [1.0]}, False)],
+        "charge_collection": [("vp.cprobes.mem", "m2", {"inc": 0.25, "lst": [1.0]}, bool(c.get("en2", False)))],
     })
     return det, pipe
 
@@ -156,6 +160,10 @@ def space_def(space):
         return "sequential", [("inc", [1.0 + s, 2.0 + s]), ("T", [150.0 + s, 250.0 + s])]
     if space == "custom":
         return "custom", [("inc", [1.0 + s, 2.0 + s]), ("a", [10.0 + s, 20.0 + s])]
+    if space == "seqen2":      # the enabled flag of a model that is disabled in the caller's configuration
+        return "sequential", [("inc", [1.0 + s, 2.0 + s]), ("en2", [True, False])]
+    if space == "seqlst":      # a list-valued argument (which the model mutates in place) next to a scalar one
+        return "sequential", [("inc", [1.0 + s, 2.0 + s, 3.0 + s]), ("lst", [[7.0, 8.0 + s], [9.0, 10.0]])]
     raise KeyError(space)
 
 
@@ -201,7 +209,9 @@ def enumerate_cases(tier, seed):
     for pk in pks:
         for prior in priors:
             for ro in ros:
-                for space in ("inc3", "incxa", "seqincT", "custom"):
+                for space in ("inc3", "incxa", "seqincT", "custom", "seqen2", "seqlst"):
+                    if space == "seqlst" and pk not in ("lst", "both"):
+                        continue                    # only these pipelines have the list argument
                     for ex in ("seq", "dask"):
                         for var in variants(space):
                             cases.append({"part": "obs", "pk": pk, "prior": prior, "ro": ro, "space": space, "exec": ex,
@@ -219,8 +229,8 @@ def enumerate_cases(tier, seed):
 def expected_size(tier, seed):
     nvar = 15 + 3 * 4
     if tier == "thorough":
-        return 4 * 4 * 3 * 2 * nvar + 4 * 4 * 6 + 16
-    return 2 * 2 * 2 * 2 * nvar + 4 * 2 * 6 + 1
+        return 4 * 4 * 3 * 2 * (nvar + 4) + 2 * 4 * 3 * 2 * 4 + 4 * 4 * 6 + 16
+    return 2 * 2 * 2 * 2 * (nvar + 4) + 1 * 2 * 2 * 2 * 4 + 4 * 2 * 6 + 1
 
 
 # ---------------------------------------------------------------- the check
